@@ -24,9 +24,9 @@ ASSUMPTIONS = [
     "tie A: source_get_octet, sink_put_octet, source_adapt, sink_adapt, once_source_get_chunk, once_sink_put_chunk, source_get_chunk, sink_put_chunk and the "
     "two atmost variants are translated from clang's typed AST on every run (tools/gen/cloops.py -> Gen/EndpFns.lean: `continue`, calls through the driver "
     "callbacks as calls of the prelude's scripted drivers, a Source / Sink as kind + driver data, `return c ? f() : g()` with only the chosen call run); proved "
-    "over the translation: gen_sink_adapt, gen_source_adapt, gen_once_sink_put_chunk and gen_sink_put_chunk (both driver styles, refusal of empty and oversized chunks) - whenever the model's loop ends, the C loop run against the same driver script ends (with any "
+    "over the translation: gen_sink_adapt, gen_source_adapt, gen_once_sink_put_chunk, gen_sink_put_chunk, gen_once_source_get_chunk and gen_source_get_chunk (both driver styles, refusal of empty and oversized chunks) - whenever the model's loop ends, the C loop run against the same driver script ends (with any "
     "fuel beyond the model's) in the same return value, the same driver state and, for the source, the octets moved at the front of the caller's block with the "
-    "rest untouched: every octet offered / fetched once and in order, retried after EINTR / EAGAIN (Ufw.Tie.EndpFns.*); source_get_chunk and the atmost variants are "
+    "rest untouched: every octet offered / fetched once and in order, retried after EINTR / EAGAIN (Ufw.Tie.EndpFns.*); the atmost variants and the octet accessors are "
     "translated (evidence) and compared by running",
     "lean/Ufw/Model/Endpoints.lean is a hand transcription of src/endpoints/core.c for endpoints without the getbuffer extension (no endpoint of the library provides it); "
     "tied to the code by the correspondence run with scripted drivers owned by the harness",
